@@ -25,6 +25,7 @@ func init() {
 			{ID: "C20.R4", Floor: 5, Doc: "CA / key-pair file errors are returned and propagated", Run: c20r4},
 			{ID: "C20.R5", Floor: 2, Doc: "password token only after approve(); default list only when the custom list is empty", Run: c20r5},
 			{ID: "C20.R6", Floor: 3, Doc: "no unauthenticated session: nil only for READY / AUTH_SUCCESS; missing authenticator refused first", Run: c20r6},
+			{ID: "C20.R8", Floor: 1, Doc: "a CA file that was read is always handed to AppendCertsFromPEM before setupTLSConfig succeeds", Run: c20r8},
 			{ID: "C20.R7", Floor: 1, Doc: "the name the server certificate is verified against is the host's name (HostnameAndPort), not the address that was dialled", Run: c20r7},
 		},
 	})
@@ -1593,4 +1594,122 @@ func c20DefaultFirst(p *Program, ap *FuncInfo, ag *Graph, use *ast.Ident, listPa
 		return true
 	})
 	return okAll && reads > 0
+}
+
+// c20r8: whatever was read from the CA file goes through AppendCertsFromPEM (whose refusal is an error, C20.R4) on
+// every path to a success return: an empty or skipped file must not silently leave the session with the system roots.
+func c20r8(p *Program, r *Report) {
+	top := r.NeedFunc("setupTLSConfig")
+	if top == nil {
+		return
+	}
+	units := p.unitsOf(top)
+	has := func(u *FuncInfo, names ...string) bool {
+		for _, c := range callsIn(u.Decl.Body) {
+			cn := calleeName(u.Pkg.TypesInfo, c)
+			for _, nm := range names {
+				if cn == nm {
+					return true
+				}
+			}
+		}
+		return false
+	}
+	reads := func(u *FuncInfo) bool { return has(u, "ioutil.ReadFile", "os.ReadFile") }
+	appends := func(u *FuncInfo) bool { return has(u, "x509.(*CertPool).AppendCertsFromPEM") }
+	n := 0
+	for _, u := range units {
+		info := u.Pkg.TypesInfo
+		kind := func(nd ast.Node) (rd, ap bool) {
+			for _, c := range callsIn(nd) {
+				switch calleeName(info, c) {
+				case "ioutil.ReadFile", "os.ReadFile":
+					rd = true
+				case "x509.(*CertPool).AppendCertsFromPEM":
+					ap = true
+				default:
+					if fn := calleeOf(info, c); fn != nil {
+						if h := p.FuncOf(fn); h != nil && h != u && h.Decl.Body != nil {
+							for _, x := range units {
+								if x == h {
+									if reads(h) && !appends(h) {
+										rd = true
+									}
+									if appends(h) && !reads(h) {
+										ap = true
+									}
+								}
+							}
+						}
+					}
+				}
+			}
+			return
+		}
+		anyRead, anyAppend := false, false
+		inspectNoLit(u.Decl.Body, func(x ast.Node) bool {
+			if st, isS := x.(ast.Stmt); isS {
+				if _, isBlock := st.(*ast.BlockStmt); !isBlock {
+					rd, ap := kind(st)
+					anyRead = anyRead || rd
+					anyAppend = anyAppend || ap
+				}
+			}
+			return true
+		})
+		if !anyRead || !anyAppend {
+			continue
+		}
+		g := p.GraphOf(u)
+		sol := Solve(g, Lattice[int]{
+			Join: func(a, b int) int {
+				if a > b {
+					return a
+				}
+				return b
+			},
+			Eq: func(a, b int) bool { return a == b },
+			Step: func(st int, step Step) int {
+				if step.Kind != StNode {
+					return st
+				}
+				rd, ap := kind(step.Node)
+				if ap {
+					return 0
+				}
+				if rd {
+					return 1
+				}
+				return st
+			},
+		})
+		for _, e := range g.Exits() {
+			rs, isRet := e.Node.(*ast.ReturnStmt)
+			if e.Kind == ExitPanic {
+				continue
+			}
+			var st int
+			var ok bool
+			var at ast.Node = u.Decl
+			if isRet {
+				// failures are not the concern here
+				if len(rs.Results) > 0 && isErrorType(info.TypeOf(rs.Results[len(rs.Results)-1])) && !isNil(info, rs.Results[len(rs.Results)-1]) {
+					continue
+				}
+				st, ok = sol.Before(rs)
+				at = rs
+			} else {
+				st, ok = sol.AtExit(e)
+			}
+			if !ok {
+				continue
+			}
+			n++
+			r.Check(st == 0, at, u.Name+" parses the CA file it read before it succeeds", "AppendCertsFromPEM on every path from ReadFile to a success return",
+				"a path from reading the CA file to a success return does not hand the bytes to AppendCertsFromPEM: a CA file without a usable certificate (e.g. an empty one) is silently accepted and the session verifies against the system roots")
+		}
+	}
+	if n == 0 {
+		r.Unresolved("no unit of setupTLSConfig both reads a file and appends certificates")
+	}
 }
